@@ -1049,7 +1049,8 @@ func FrameRule(w *World, b *Backend, r *Result, rule string) {
 		os = append(os, o)
 	}
 	sort.Strings(os)
-	reField := regexp.MustCompile(`^field:(\w+)$`)
+	// the counter itself, or the counter shifted by a constant (the name handed out last = counter − 1)
+	reField := regexp.MustCompile(`^\(?field:(\w+)(?:[-+]\d+\))?$`)
 	for _, o := range os {
 		key := "frame:" + b.Role + ":" + o
 		usedBy := strings.Join(uniq(origins[o]), ", ")
@@ -1110,7 +1111,30 @@ func bumpDominatesEmits(b *Backend, m, f string) string {
 		}
 	}
 	if store == nil {
-		return "no direct store to " + f + " in " + m
+		// the bump made by a helper called from m (a name sequence's next()): the call is the bump
+		x := b.X
+		e := x.TopEnv(mf.Fn)
+		for _, blk := range mf.Fn.Blocks {
+			for _, ins := range blk.Instrs {
+				call, ok := ins.(*ssa.Call)
+				if !ok || store != nil {
+					continue
+				}
+				callee, clos, closEnv := x.resolveCallee(call, e)
+				if callee == nil || callee.Blocks == nil || !x.W.IsProduct(pkgOf(callee)) || x.Sinks[callee] {
+					continue
+				}
+				tmp := &MethodFacts{Name: m, FieldsSet: map[string][]string{}, FieldsRead: map[string]bool{}}
+				ne := x.bindCall(callee, call.Call.Args, e, &evalCtx{busy: map[ssa.Value]bool{}}, clos, closEnv)
+				x.walkEffects(callee, ne, tmp, map[*ssa.Function]bool{})
+				if len(tmp.FieldsSet[f]) > 0 {
+					store = call
+				}
+			}
+		}
+	}
+	if store == nil {
+		return "no store to " + f + " in " + m
 	}
 	for _, blk := range mf.Fn.Blocks {
 		for i, ins := range blk.Instrs {
@@ -1119,7 +1143,7 @@ func bumpDominatesEmits(b *Backend, m, f string) string {
 				continue
 			}
 			callee := c.Common().StaticCallee()
-			if callee == nil || callee.Pkg != mf.Fn.Pkg || c.Common().Signature().Recv() == nil {
+			if callee == nil || callee.Pkg != mf.Fn.Pkg || c.Common().Signature().Recv() == nil || ins == store {
 				continue
 			}
 			// any method of the converter called before the bump could form a name or emit
